@@ -172,14 +172,33 @@ def rule_readonly(ctx):
     op = prog.one('BlkFile::open')
     fo = [c for c in op.calls if 'std::fs::' in c.name]
     ctx.check('readonly', 'blk-files-opened-read-only', [c.name for c in fo] == ['std::fs::File::open'], op, 'BlkFile::open uses %s' % [c.name for c in fo])
-    # every FS mutation of the crate sits in the dump callbacks, under dump_folder
+    # every FS mutation of the crate belongs to the dump callbacks: it is reachable (without virtual dispatch) only
+    # from methods of CsvDump / UnspentCsvDump / Balances — wherever the helper that performs it lives
+    DUMPS = ('CsvDump', 'UnspentCsvDump', 'Balances')
     for cs in prog.all_calls():
         if re.search(FS_MUT, cs.name):
             b = cs.body
-            own = b.impl_self or ''
-            okb = own.split('::')[-1] in ('CsvDump', 'UnspentCsvDump', 'Balances')
-            ctx.check('readonly', 'fs-mutation-owner:%s:%s' % (b.path.split('::')[-1], own.split('::')[-1]), okb, cs, '%s in %s' % (cs.name, b.path),
-                      bad_detail='%s in %s: only the dump callbacks may create/rename files' % (cs.name, b.path))
+            # nearest owners: walk up the direct callers from the site until a method of some type is reached; a free
+            # function without callers (main) owns the site itself
+            owners = set()
+            seen = set()
+            work = [b]
+            while work:
+                x = work.pop()
+                if x.path in seen:
+                    continue
+                seen.add(x.path)
+                if x.impl_self:
+                    owners.add(x.impl_self.split('::')[-1])
+                    continue
+                cal = [c.body for c in prog.callers_of(x)]
+                if not cal:
+                    owners.add('fn ' + x.path.split('::')[-1])
+                work.extend(cal)
+            owners = sorted(owners)
+            okb = bool(owners) and all(o in DUMPS for o in owners)
+            ctx.check('readonly', 'fs-mutation-owner:%s:%s' % (mir.short(cs.name), '+'.join(owners)), okb, cs, '%s is reached only from %s' % (cs.name, owners),
+                      bad_detail='%s in %s is reachable from %s: only the dump callbacks may create/rename files' % (cs.name, b.path, owners))
     # leveldb is not touched anywhere else
     other = [cs for cs in prog.all_calls() if 'rusty_leveldb' in cs.name and cs.body.path != 'blockchain::parser::index::get_block_index']
     ctx.check('readonly', 'leveldb-only-in-loader', not other, None, 'rusty_leveldb used outside the loader: %s' % [c.where() for c in other])
@@ -187,11 +206,21 @@ def rule_readonly(ctx):
 
 def rule_create(ctx):
     prog = ctx.prog
-    cr = [cs for cs in prog.all_calls() if re.search(r'^std::fs::(File::create|File::create_new|File::options|OpenOptions::)', cs.name)]
-    for cs in cr:
-        ctx.check('create', 'truncating-create:%s' % cs.body.path, cs.name == 'std::fs::File::create', cs, cs.name,
-                  bad_detail='%s: stale tmp content from an earlier run would survive (append/create_new)' % cs.name)
-    ctx.check('create', 'three-create-sites', len(cr) == 3, None, '%d create sites' % len(cr))
+    api = r'^std::fs::(File::create|File::create_new|File::options|OpenOptions::)'
+    found = 0
+    for cb in ('callbacks::csvdump::CsvDump', 'callbacks::unspentcsvdump::UnspentCsvDump', 'callbacks::balances::Balances'):
+        nb = prog.find('<%s as callbacks::Callback>::new' % cb)
+        if not nb:
+            continue
+        found += 1
+        opens = [c for rb in prog.reachable_bodies(nb) for c in rb.calls if re.search(api, c.name)]
+        ctx.check('create', 'truncating-create:%s' % cb.split('::')[-1], bool(opens) and all(c.name == 'std::fs::File::create' for c in opens), opens[0] if opens else nb[0],
+                  'tmp files of %s are opened with the truncating File::create' % cb.split('::')[-1],
+                  bad_detail='%s: stale tmp content from an earlier run would survive (append/create_new/no truncate)' % sorted(set(c.name for c in opens)))
+    ctx.check('create', 'three-create-sites', found == 3, None, '%d dump callbacks create their tmp files in the constructor' % found)
+    other = [cs for cs in prog.all_calls() if re.search(api, cs.name) and not any(cs.body in prog.reachable_bodies(prog.find('<%s as callbacks::Callback>::new' % cb))
+                                                                                 for cb in ('callbacks::csvdump::CsvDump', 'callbacks::unspentcsvdump::UnspentCsvDump', 'callbacks::balances::Balances'))]
+    ctx.check('create', 'no-other-create', not other, other[0] if other else None, 'no file is created outside the three constructors')
     rn = [cs for cs in prog.all_calls() if cs.name == 'std::fs::rename']
     ctx.check('create', 'final-names-by-rename', len(rn) == 3, None, '%d rename sites' % len(rn))
 
